@@ -203,6 +203,29 @@ def getLine (kf : Option KeyFile) (type : String) (g k : Option Str) (deflt : Op
         s!"get {E e} {d}"
       else s!"get {E e}"
 
+def allGetters (kf : Option KeyFile) : List String :=
+  match kf with
+  | none => ["allget null"]
+  | some kf =>
+    let (ge, groups) := match getGroups kf with
+      | .ok gs => (Err.success, gs)
+      | .error e => (e, [])
+    let num := fun {α : Type} (tag : String) (r : Except Err α) (shw : α → String) =>
+      match r with
+      | .ok v => s!" {tag} E0 {shw v}"
+      | .error e => s!" {tag} {E e}"
+    let perGroup := fun (g : Option Str) =>
+      match getKeys kf g with
+      | .error _ => []
+      | .ok ks => ks.map (fun k =>
+          s!"ag {hexStr k}" ++
+            num "i" (getTyped getInt32 kf g (some k)) showI ++
+            num "l" (getTyped getInt64 kf g (some k)) showI ++
+            num "u" (getTyped getUInt32 kf g (some k)) toString ++
+            num "w" (getTyped getUInt64 kf g (some k)) toString ++
+            num "b" (getTyped getBool kf g (some k)) (fun b => if b then "1" else "0"))
+    s!"allget {E ge}" :: ((none :: groups.map some).map perGroup).flatten
+
 def slotOf (t : String) : Nat := t.toNat!
 
 def kfArg (w : World) (t : String) : Option KeyFile := if t == "-" then none else w.slot (slotOf t)
@@ -344,6 +367,7 @@ def runCmd (w : World) (tok : Array String) : World × List String :=
         let bytes := writeBytes kf
         let out := if t 0 == "W" then s!"bytes {hexStr bytes}" else s!"bytes {putSum (some bytes)}"
         ({ w with fs := w.fs.add full (.file bytes 0 0) }, ["w E0", out])
+  | "ALLGET" => (w, allGetters (w.slot (slotOf (t 1))))
   | "DUMP" => (w, dumpView (w.slot (slotOf (t 1))) false)
   | "DUMPX" => (w, dumpView (w.slot (slotOf (t 1))) true)
   | "RAW" => (w, dumpRaw (w.slot (slotOf (t 1))))
